@@ -151,6 +151,23 @@ def run_topic_check(ctx, prop, *, kinds, want, given, maxseq, u1_quick, u1_thoro
         sims = sims + sims2
     else:
         sims, rs = world.simulate(ctx, "Sim_" + prop, cb, sim["num"], sim["depth"], ctx.seed)
+    if prop == "C08":
+        # reload equivalence of the ANSWERS on the random walks too: every Reload of a walk is framed by the same {get desc sub},
+        # asked by the session that most recently subscribed to that topic in the walk (attached or not: either way the answer
+        # before and after the unload + load must be the same; Trace_TopicCore.ReloadEquivalence judges the triple)
+        framed = []
+        for b in sims:
+            nb, last = [], {}
+            for stp in b:
+                if stp.get("a") == "Sub" and stp.get("t") in ("g1", "p12") and not stp.get("chan"):
+                    last[stp["t"]] = stp["s"]
+                if stp.get("a") == "Reload" and stp.get("t") in last:
+                    g = {"a": "Get", "s": last[stp["t"]], "t": stp["t"], "what": "desc sub", "since": 0, "before": 0, "limit": 0, "chan": False}
+                    nb += [dict(g), stp, dict(g)]
+                else:
+                    nb.append(stp)
+            framed.append(nb)
+        sims = framed
     behs += sims
     if extra_behaviours:
         behs += extra_behaviours(users, sess, topics)
@@ -161,6 +178,11 @@ def run_topic_check(ctx, prop, *, kinds, want, given, maxseq, u1_quick, u1_thoro
     r2, recs, fails, divs = world.check_traces(ctx, trace, cb, props, timeout=1500)
     n = world.report(ctx, recs, fails, divs, prop, sig=signature)
     st = world.stats(recs)
+    # vacuity guard for the cross-step clauses (Trace_TopicCore.ReloadEquivalence): how many {get} - Reload - same {get} triples were judged
+    triples = sum(1 for k in range(2, len(recs)) if recs[k]["i"] >= 3 and recs[k]["act"].get("a") == "Get" and recs[k - 1]["act"].get("a") == "Reload"
+                  and recs[k - 1]["act"].get("t") == recs[k]["act"].get("t") and recs[k - 2]["act"] == recs[k]["act"])
+    ctx.cov["reload_equivalence_triples"] = triples
+    ctx.cov["goal_behaviours"] = sorted(l[5:] for l in labels if l.startswith("goal:"))
     nfault = 0
     if faults:
         # ---- fault / crash enumeration: one failing (or fatal) adapter call per variant, position taken from the fault-free run
